@@ -97,16 +97,27 @@ def lake_build(targets, timeout=3600):
     return p.returncode == 0, (p.stdout + p.stderr)
 
 
+def prop_modules(prop):
+    """Props/<id>.lean plus any Props/<id>_*.lean (further theorem files of the same property)"""
+    d = os.path.join(LEAN, "OwlModel", "Props")
+    mods = []
+    if os.path.exists(os.path.join(d, prop + ".lean")):
+        mods.append(prop)
+    if os.path.isdir(d):
+        mods += sorted(f[:-5] for f in os.listdir(d) if f.startswith(prop + "_") and f.endswith(".lean"))
+    return mods
+
+
 def theorem_names(prop):
-    path = os.path.join(LEAN, "OwlModel", "Props", prop + ".lean")
-    if not os.path.exists(path):
-        return []
-    src = open(path).read()
-    src = re.sub(r"/-.*?-/", "", src, flags=re.S)
-    src = re.sub(r"--[^\n]*", "", src)
-    ns = re.search(r"^namespace\s+(\S+)", src, re.M)
-    prefix = (ns.group(1) + ".") if ns else ""
-    return [prefix + n for n in re.findall(r"^theorem\s+([A-Za-z0-9_'.?!]+)", src, re.M)]
+    names = []
+    for mod in prop_modules(prop):
+        src = open(os.path.join(LEAN, "OwlModel", "Props", mod + ".lean")).read()
+        src = re.sub(r"/-.*?-/", "", src, flags=re.S)
+        src = re.sub(r"--[^\n]*", "", src)
+        ns = re.search(r"^namespace\s+(\S+)", src, re.M)
+        prefix = (ns.group(1) + ".") if ns else ""
+        names += [prefix + n for n in re.findall(r"^theorem\s+([A-Za-z0-9_'.?!]+)", src, re.M)]
+    return names
 
 
 def forbidden_tokens(prop):
@@ -142,7 +153,8 @@ def audit_axioms(prop, names):
     os.makedirs(WORK, exist_ok=True)
     path = os.path.join(WORK, f"Audit_{prop}.lean")
     with open(path, "w") as f:
-        f.write(f"import OwlModel.Props.{prop}\n")
+        for mod in prop_modules(prop):
+            f.write(f"import OwlModel.Props.{mod}\n")
         for n in names:
             f.write(f"#print axioms {n}\n")
     p = run(["lake", "env", "lean", path], cwd=LEAN, timeout=1200)
@@ -310,7 +322,7 @@ def main():
         thm_names = theorem_names(prop)
         ok_thm, out_thm = (True, "")
         if thm_names or os.path.exists(os.path.join(LEAN, "OwlModel", "Props", prop + ".lean")):
-            ok_thm, out_thm = lake_build([f"OwlModel.Props.{prop}"])
+            ok_thm, out_thm = lake_build([f"OwlModel.Props.{m}" for m in prop_modules(prop)])
     obligation_broken = None
     if tr["errors"]:
         obligation_broken = "translator: " + "; ".join(tr["errors"])
@@ -412,8 +424,12 @@ def main():
     # thorough tier: independent re-check of the compiled property module
     leanchecker = None
     if tier == "thorough" and thm_names and not obligation_broken:
-        p = run(["lake", "env", "leanchecker", f"OwlModel.Props.{prop}"], cwd=LEAN, timeout=3600)
-        leanchecker = p.returncode == 0
+        leanchecker = True
+        for mod in prop_modules(prop):
+            p = run(["lake", "env", "leanchecker", f"OwlModel.Props.{mod}"], cwd=LEAN, timeout=3600)
+            leanchecker = leanchecker and p.returncode == 0
+            if p.returncode != 0:
+                break
         if not leanchecker:
             rp = write_replay(prop, seed, "obligation", [], {"broken": "leanchecker rejected the module: " + (p.stdout + p.stderr)[-1500:]})
             violations.append(("obligation", rp, "no-failing-input-found"))
